@@ -1,5 +1,6 @@
 // C08 driver: compat/libc/string mem*/str* (symbols renamed igv_*), arguments are offsets into one heap arena.
 #include "common/vlog.h"
+#include "common/sstep.h"
 #include <sys/mman.h>
 #include <strings.h>
 using namespace vlog;
@@ -15,6 +16,31 @@ char *igv_strrchr(const char *, int); size_t igv_strspn(const char *, const char
 char *igv_strtok(char *, const char *); char *igv_strtok_r(char *, const char *, char **); char *igv_strupr(char *);
 }
 static int sgn(long x) { return x < 0 ? -1 : x > 0 ? 1 : 0; }
+// one call of a function without allocation and without documented static state, on arena M (offsets a, b); the function is
+// selected by an index so that the single-stepped region holds little besides the call itself
+static const char *PLAIN[] = {"memcpy", "memmove", "memset", "memcmp", "memchr", "memrchr", "strlen", "strnlen", "strcpy", "strncpy", "strlcpy", "strcat", "strncat", "strcmp", "strncmp",
+    "strcasecmp", "strncasecmp", "strchr", "strrchr", "strchrnul", "strstr", "strcasestr", "strspn", "strcspn", "strpbrk", "strlwr", "strupr"};
+static int plain_index(const std::string &fn) { for (unsigned i = 0; i < sizeof PLAIN / sizeof *PLAIN; ++i) if (fn == PLAIN[i]) return (int)i; return -1; }
+static bool call_plain(int fi, unsigned char *M, long a, long b, size_t n, long &ret) {
+    char *A = (char *)M + a, *B = (char *)M + b;
+#define OFF(p_) ({ const void *q_ = (p_); q_ ? (long)((const unsigned char *)q_ - M) : -1; })
+    switch (fi) {
+    case 0: ret = OFF(igv_memcpy(A, B, n)); break; case 1: ret = OFF(igv_memmove(A, B, n)); break; case 2: ret = OFF(igv_memset(A, (int)b, n)); break;
+    case 3: ret = sgn(igv_memcmp(A, B, n)); break; case 4: ret = OFF(igv_memchr(A, (int)b, n)); break; case 5: ret = OFF(igv_memrchr(A, (int)b, n)); break;
+    case 6: ret = igv_strlen(A); break; case 7: ret = igv_strnlen(A, n); break;
+    case 8: ret = OFF(igv_strcpy(A, B)); break; case 9: ret = OFF(igv_strncpy(A, B, n)); break; case 10: ret = igv_strlcpy(A, B, n); break;
+    case 11: ret = OFF(igv_strcat(A, B)); break; case 12: ret = OFF(igv_strncat(A, B, n)); break;
+    case 13: ret = sgn(igv_strcmp(A, B)); break; case 14: ret = sgn(igv_strncmp(A, B, n)); break;
+    case 15: ret = sgn(igv_strcasecmp(A, B)); break; case 16: ret = sgn(igv_strncasecmp(A, B, n)); break;
+    case 17: ret = OFF(igv_strchr(A, (int)b)); break; case 18: ret = OFF(igv_strrchr(A, (int)b)); break; case 19: ret = OFF(igv_strchrnul(A, (int)b)); break;
+    case 20: ret = OFF(igv_strstr(A, B)); break; case 21: ret = OFF(igv_strcasestr(A, B)); break;
+    case 22: ret = igv_strspn(A, B); break; case 23: ret = igv_strcspn(A, B); break; case 24: ret = OFF(igv_strpbrk(A, B)); break;
+    case 25: ret = OFF(igv_strlwr(A)); break; case 26: ret = OFF(igv_strupr(A)); break;
+    default: return false; }
+    return true;
+}
+struct Inner { int fn; unsigned char *M; long a, b; size_t n; long ret; bool ran; };
+static void inner_call(void *p) { Inner *x = (Inner *)p; call_plain(x->fn, x->M, x->a, x->b, x->n, x->ret); x->ran = true; }
 int main(int argc, char **argv) {
     return run(argc, argv, [&](const std::vector<std::string> &t) {
         if (t[0] == "R") { Ev e("Reset"); e.end(); return; }
@@ -35,6 +61,38 @@ int main(int argc, char **argv) {
             unsigned long long ro = (unsigned char *)r - base;
             Ev e("MemBig"); e.str("fn", fn.c_str()).str("args", (t[2] + " " + t[3] + " " + t[4] + " " + t[5] + " " + t[6] + " " + t[7] + " " + t[8]).c_str()).raw("d", pair(d)).raw("s", pair(sdx)).raw("n", pair(n)).i("c", c).raw("marks", marks).raw("probes", probes).raw("ret", pair(ro)); e.end();
             munmap(base, span + 8192); return; }
+        if (t[0] == "Nest") {   // Nest fn mem a b n fn2 mem2 a2 b2 n2 kspec : the call fn(mem, a, b, n) is interrupted after its k-th instruction by a
+            // complete call fn2(mem2, a2, b2, n2) on the same stack (what an interrupt or signal handler does), for every k (kspec "all"), for about
+            // <num> evenly spread k (kspec "s<num>") or for one k (kspec "k<num>").  Both calls are logged as ordinary Str events (fresh arenas each
+            // time); consecutive k with identical observations are merged into one pair of events (nest = first k, nest_to = last k).
+            const std::string &fn = t[1], &fn2 = t[6]; auto m = blist(t[2]), m2 = blist(t[7]); long a = num(t[3]), b = num(t[4]), a2 = num(t[8]), b2 = num(t[9]); size_t n = num(t[5]), n2 = num(t[10]);
+            std::vector<unsigned char> w(m), w2(m2); long r0 = 0;
+            unsigned keep = g_op_timeout; if (keep) { g_op_timeout = 60; watchdog(true); g_op_timeout = keep; }
+            int fi = plain_index(fn), fi2 = plain_index(fn2); if (fi < 0 || fi2 < 0) { fprintf(stderr, "bad Nest fn\n"); exit(3); }
+            Inner in{fi2, w2.data(), a2, b2, n2, 0};
+            call_plain(fi, w.data(), a, b, n, r0); w = m;            // (first use: lazy symbol binding would be counted otherwise)
+            { std::vector<unsigned char> x2(m2); long rr = 0; call_plain(fi2, x2.data(), a2, b2, n2, rr); }
+            long N = sstep::run(0, [&] { call_plain(fi, w.data(), a, b, n, r0); }, inner_call, &in);
+            std::vector<long> ks; const std::string &ksp = t[11];
+            if (ksp[0] == 'k') ks.push_back(atol(ksp.c_str() + 1));
+            else { long want = ksp == "all" ? N : atol(ksp.c_str() + 1); long step = N <= want ? 1 : (N + want - 1) / want; for (long k = 1 + (step > 1 ? (long)(m.size() + m2.size()) % step : 0); k <= N; k += step) ks.push_back(k); }
+            bool have = false; long first = 0, last = 0, pret = 0, piret = 0; std::vector<unsigned char> pw, pw2;
+            auto emit = [&] {
+                std::string ln = "Nest " + t[1] + " " + t[2] + " " + t[3] + " " + t[4] + " " + t[5] + " " + t[6] + " " + t[7] + " " + t[8] + " " + t[9] + " " + t[10] + " k" + std::to_string(first);
+                Ev e("Str"); e.str("fn", fn.c_str()).bytes("mem", m.data(), m.size()).i("a", a).i("b", b).i("n", (long long)n).str("ns", t[5].c_str()).i("pad", 0).i("ret", pret).bytes("mem2", pw.data(), pw.size())
+                    .i("nest", first).i("nest_to", last).i("steps", N).str("role", "interrupted").str("nestline", ln.c_str()); e.end();
+                Ev f("Str"); f.str("fn", fn2.c_str()).bytes("mem", m2.data(), m2.size()).i("a", a2).i("b", b2).i("n", (long long)n2).str("ns", t[10].c_str()).i("pad", 0).i("ret", piret).bytes("mem2", pw2.data(), pw2.size())
+                    .i("nest", first).i("nest_to", last).i("steps", N).str("role", "interrupting").str("nestline", ln.c_str()); f.end(); };
+            for (long k : ks) {
+                w = m; w2 = m2; long r = 0; in.M = w2.data(); in.ret = 0; in.ran = false;
+                sstep::run(k, [&] { call_plain(fi, w.data(), a, b, n, r); }, inner_call, &in);
+                if (!in.ran) break;          // the interrupted call ended before its k-th instruction: nothing was nested
+                if (have && r == pret && in.ret == piret && w == pw && w2 == pw2) { last = k; continue; }
+                if (have) emit();
+                have = true; first = last = k; pret = r; piret = in.ret; pw = w; pw2 = w2;
+            }
+            if (have) emit();
+            return; }
         // Str fn mem a b n pad
         const std::string &fn = t[1]; auto m = blist(t[2]); long a = num(t[3]), b = num(t[4]); size_t n = t[5][0] == '-' ? (size_t)num(t[5]) : (size_t)strtoull(t[5].c_str(), 0, 10); size_t pad = num(t[6]);
         // a count that does not fit TLC's integers (2^31 and more, or "negative" = near SIZE_MAX) is logged as -1 ("more than any object") and exactly as text
